@@ -386,6 +386,7 @@ impl System for ImpSys {
 
 fn main() {
 	refmodel::set_eps(eps());
+	refmodel::set_floor(ValueType::MIN_POSITIVE as f64);
 	let mut h = H::start("C15");
 	let thorough = h.thorough();
 	let pmax = PeriodType::MAX as u64;
